@@ -27,6 +27,9 @@ Theorem snap_manhattan_on_outline : forall b p d,
   0 <= bw b -> 0 <= bh b -> exists r, snap_manhattan b p d = Ok r /\ on_outline b r.
 Proof. exact manhattan_sound. Qed.
 Print Assumptions snap_manhattan_on_outline.
+Example snap_manhattan_on_outline_hyps_sat :   (* a 10 x 6 port at (2, 3) *)
+  0 <= bw (mkbox 2 3 10 6 true) /\ 0 <= bh (mkbox 2 3 10 6 true).
+Proof. split; cbn; lra. Qed.
 
 (* ---- 2. Closest snapping (no source / source = point): total and on the outline for every box of
         positive width and height.  The code violates the statement for degenerate boxes. *)
@@ -34,6 +37,9 @@ Theorem snap_closest_on_outline_partial : forall b s,
   0 < bw b -> 0 < bh b -> exists r, snap_closest b s = Ok r /\ on_outline b r.
 Proof. exact closest_sound. Qed.
 Print Assumptions snap_closest_on_outline_partial.
+Example snap_closest_on_outline_partial_hyps_sat :   (* a 10 x 6 box at (2, 3) *)
+  0 < bw (mkbox 2 3 10 6 false) /\ 0 < bh (mkbox 2 3 10 6 false).
+Proof. split; cbn; lra. Qed.
 
 Theorem snap_closest_refuted : exists b s, 0 <= bw b /\ 0 <= bh b /\ snap_closest b s = Err E_ValueError.
 Proof. exists (mkbox 0 0 0 0 false), (1, 1). repeat split; try (cbn; lra). Qed.
@@ -47,6 +53,10 @@ Theorem snap_oblique_on_outline_partial : forall b p s r,
   0 < bw b -> 0 < bh b -> snap_oblique b p s = Ok r -> on_outline b r.
 Proof. exact oblique_sound. Qed.
 Print Assumptions snap_oblique_on_outline_partial.
+Example snap_oblique_on_outline_partial_hyps_sat :   (* ray from (-5, 2) to the centre of a 10 x 10 box: hits the left side *)
+  exists r, 0 < bw (mkbox 0 0 10 10 false) /\ 0 < bh (mkbox 0 0 10 10 false)
+            /\ snap_oblique (mkbox 0 0 10 10 false) (5, 5) (-5 # 1, 2) = Ok r /\ fst r == 0 /\ snd r == 7 # 2.
+Proof. eexists. split; [cbn; lra|]. split; [cbn; lra|]. split; [reflexivity|]. split; reflexivity. Qed.
 
 (* 3'. the exact guard: for boxes of positive extent the oblique variant returns (a point of the outline)
         exactly when [oblique_ok] holds — the ray has a direction and, when it is neither horizontal nor
@@ -56,6 +66,11 @@ Theorem snap_oblique_exact : forall b p s, 0 < bw b -> 0 < bh b ->
   /\ (oblique_ok b p s = false -> snap_oblique b p s = Err E_AssertionError).
 Proof. exact oblique_exact. Qed.
 Print Assumptions snap_oblique_exact.
+Example snap_oblique_exact_hyps_sat :   (* one box of positive extent with a ray that is ok and one through the corner *)
+  0 < bw (mkbox 0 0 10 10 false) /\ 0 < bh (mkbox 0 0 10 10 false)
+  /\ oblique_ok (mkbox 0 0 10 10 false) (5, 5) (-5 # 1, 2) = true
+  /\ oblique_ok (mkbox 0 0 10 10 false) (5, 5) (-5 # 1, -5 # 1) = false.
+Proof. split; [cbn; lra|]. split; [cbn; lra|]. split; reflexivity. Qed.
 
 Theorem snap_oblique_refuted :
   (exists b p s, 0 < bw b /\ 0 < bh b /\ veqb p s = false /\ inside b p = true
@@ -77,18 +92,47 @@ Theorem snap_tree_on_side_partial : forall b p d,
   veqb d (0, 0) = false -> exists r, snap_tree b p d = Ok r /\ on_tree_side b p r.
 Proof. exact tree_partial. Qed.
 Print Assumptions snap_tree_on_side_partial.
+Example snap_tree_on_side_partial_hyps_sat :   (* direction pi - pn of a vertical last segment *)
+  veqb (vsub (103, 100) (103, 50)) (0, 0) = false.
+Proof. reflexivity. Qed.
 
 Theorem tree_side_on_outline : forall b p r,
   0 <= bw b -> on_tree_side b p r ->
   (bport b = true \/ (bx b <= fst p /\ fst p <= bx b + bw b)) -> on_outline b r.
 Proof. exact tree_side_outline. Qed.
 Print Assumptions tree_side_on_outline.
+Example tree_side_on_outline_hyps_sat :   (* 10 x 10 box, point (3, 20) below it, result (3, 10) on the bottom line *)
+  0 <= bw (mkbox 0 0 10 10 false) /\ on_tree_side (mkbox 0 0 10 10 false) (3, 20) (3, 10)
+  /\ (bport (mkbox 0 0 10 10 false) = true
+      \/ (bx (mkbox 0 0 10 10 false) <= fst (3, 20) /\ fst (3, 20) <= bx (mkbox 0 0 10 10 false) + bw (mkbox 0 0 10 10 false))).
+Proof.
+  split; [cbn; lra|]. split.
+  - split; [right; cbn; lra|cbn; lra].
+  - right. cbn. lra.
+Qed.
+Example tree_side_on_outline_hyps_sat_2 :   (* a port, point far outside its x range, result at the middle of the top line *)
+  0 <= bw (mkbox 0 0 10 10 true) /\ on_tree_side (mkbox 0 0 10 10 true) (30, -20 # 1) (5, 0)
+  /\ (bport (mkbox 0 0 10 10 true) = true
+      \/ (bx (mkbox 0 0 10 10 true) <= fst (30, -20 # 1) /\ fst (30, -20 # 1) <= bx (mkbox 0 0 10 10 true) + bw (mkbox 0 0 10 10 true))).
+Proof.
+  split; [cbn; lra|]. split.
+  - split; [left; cbn; lra|cbn; lra].
+  - left. reflexivity.
+Qed.
 
 Theorem tree_side_on_outline_only_if : forall b p r,
   0 <= bw b -> bport b = false -> on_tree_side b p r -> on_outline b r ->
   bx b <= fst p /\ fst p <= bx b + bw b.
 Proof. exact tree_side_outline_only_if. Qed.
 Print Assumptions tree_side_on_outline_only_if.
+Example tree_side_on_outline_only_if_hyps_sat :   (* same box and points as tree_side_on_outline_hyps_sat *)
+  0 <= bw (mkbox 0 0 10 10 false) /\ bport (mkbox 0 0 10 10 false) = false
+  /\ on_tree_side (mkbox 0 0 10 10 false) (3, 20) (3, 10) /\ on_outline (mkbox 0 0 10 10 false) (3, 10).
+Proof.
+  split; [cbn; lra|]. split; [reflexivity|]. split.
+  - split; [right; cbn; lra|cbn; lra].
+  - left. cbn. repeat split; try lra. right. lra.
+Qed.
 
 Theorem snap_tree_refuted : exists b p r,
   0 < bw b /\ 0 < bh b /\ snap_tree b p (0, 0) = Ok r /\ ~ on_outline b r.
@@ -112,6 +156,10 @@ Theorem line_intersect_equivariant : forall p1 p2 p3 p4 q1 q2 q3 q4 v,
   res_eq (line_intersect q1 q2 q3 q4) (shift_res v (line_intersect p1 p2 p3 p4)).
 Proof. exact li_shift. Qed.
 Print Assumptions line_intersect_equivariant.
+Example line_intersect_equivariant_hyps_sat :   (* the diagonals of a 2 x 2 square moved by (3, -1); q4 given unreduced *)
+  veq (3, -1 # 1) (vadd (0, 0) (3, -1 # 1)) /\ veq (5, 1) (vadd (2, 2) (3, -1 # 1))
+  /\ veq (3, 1) (vadd (0, 2) (3, -1 # 1)) /\ veq (10 # 2, -2 # 2) (vadd (2, 0) (3, -1 # 1)).
+Proof. unfold veq. cbn. repeat split; lra. Qed.
 
 (* ---- 6. Ports: when the parent exceeds the port by more than -2*PORT_OVERHANG in both directions,
         snap_to_parent succeeds and puts the port's centre on the outline of the mid-box, i.e. the parent
@@ -121,7 +169,12 @@ Theorem port_on_border : forall ppos psize pos size, port_fits psize size ->
              /\ on_outline (port_midbox ppos psize size) (port_mid np size).
 Proof. exact port_on_border_lemma. Qed.
 Print Assumptions port_on_border.
+(* hypothesis [port_fits]: Example port_fits_default below (MIN_SIZE parent, PORT_SIZE port) *)
+Example port_on_border_hyps_sat :   (* a parent narrower than the port, still within the overhang: 7 - 10 + 2*2 > 0 *)
+  port_fits (7, 8) PORT_SIZE.
+Proof. unfold port_fits, PORT_SIZE, PORT_OVERHANG; cbn [fst snd]; lra. Qed.
 
+(* by definition of port_midbox (content: the clamp of mkbox is inactive under port_fits) *)
 Theorem port_midbox_is_shrunk_parent : forall ppos psize size, port_fits psize size ->
   let m := port_midbox ppos psize size in
   bx m == fst ppos + fst size * (1 # 2) - PORT_OVERHANG /\ by_ m == snd ppos + snd size * (1 # 2) - PORT_OVERHANG
@@ -129,15 +182,25 @@ Theorem port_midbox_is_shrunk_parent : forall ppos psize size, port_fits psize s
   /\ by_ m + bh m == snd ppos + snd psize - snd size * (1 # 2) + PORT_OVERHANG.
 Proof. exact port_midbox_geometry. Qed.
 Print Assumptions port_midbox_is_shrunk_parent.
+(* hypothesis [port_fits]: Examples port_fits_default (below) and port_on_border_hyps_sat (above) *)
 
 (* ---- 7. Viewport: defined for every non-empty list of visible bounds and encloses each of them *)
 Theorem viewport_encloses : forall bs v, viewport bs = Some v -> Forall (fun b => within b v) bs.
 Proof. exact viewport_encloses_all. Qed.
 Print Assumptions viewport_encloses.
+Example viewport_encloses_hyps_sat :   (* two boxes, the second one up and to the right of the first *)
+  exists v, viewport [(0, 0, 1, 1); (5, -3 # 1, 2, 2)] = Some v.
+Proof.
+  destruct (viewport [(0, 0, 1, 1); (5, -3 # 1, 2, 2)]) as [v|] eqn:E; [now exists v|].
+  vm_compute in E. discriminate.
+Qed.
 
+(* by definition of viewport (a match on the list) *)
 Theorem viewport_defined : forall bs, bs <> [] -> exists v, viewport bs = Some v.
 Proof. exact viewport_total. Qed.
 Print Assumptions viewport_defined.
+Example viewport_defined_hyps_sat : [(0, 0, 1, 1); (5, -3 # 1, 2, 2)] <> [].
+Proof. discriminate. Qed.
 
 (* ---- 8. Moving one top-level node (position calculus of the box factory): the other top-level nodes
         and their contents keep their positions; the node and everything inside it move by exactly d *)
@@ -160,12 +223,20 @@ Theorem route_manhattan_on_outlines : forall src tgt,
   exists l, route_manhattan src tgt = LOk l /\ on_outline src (origin l) /\ on_outline tgt (extremity l).
 Proof. exact route_manhattan_ends. Qed.
 Print Assumptions route_manhattan_on_outlines.
+Example route_manhattan_on_outlines_hyps_sat :   (* a 10 x 10 box and a 20 x 8 box to its lower right *)
+  0 <= bw (mkbox 0 0 10 10 false) /\ 0 <= bh (mkbox 0 0 10 10 false)
+  /\ 0 <= bw (mkbox 50 30 20 8 false) /\ 0 <= bh (mkbox 50 30 20 8 false).
+Proof. repeat split; cbn; lra. Qed.
 
 Theorem route_tree_on_outlines : forall src tgt,
   0 <= bw src -> 0 <= bh src -> 0 <= bw tgt -> 0 <= bh tgt ->
   on_outline src (origin (route_tree src tgt)) /\ on_outline tgt (extremity (route_tree src tgt)).
 Proof. exact route_tree_ends. Qed.
 Print Assumptions route_tree_on_outlines.
+Example route_tree_on_outlines_hyps_sat :   (* a box and a port below it *)
+  0 <= bw (mkbox 0 0 10 10 false) /\ 0 <= bh (mkbox 0 0 10 10 false)
+  /\ 0 <= bw (mkbox 3 40 10 10 true) /\ 0 <= bh (mkbox 3 40 10 10 true).
+Proof. repeat split; cbn; lra. Qed.
 
 (* ---- 11. Edge-end snapping, Manhattan style (_edge_factories.snap_manhattan): never fails and the new
          extremity of the edge is on the outline of the box *)
@@ -174,6 +245,9 @@ Theorem edge_manhattan_end_on_outline : forall tgt pi pn,
   exists l, edge_snap_manhattan tgt pi pn = LOk l /\ on_outline tgt (extremity l).
 Proof. exact edge_snap_manhattan_end. Qed.
 Print Assumptions edge_manhattan_end_on_outline.
+Example edge_manhattan_end_on_outline_hyps_sat :
+  0 <= bw (mkbox 50 30 20 8 false) /\ 0 <= bh (mkbox 50 30 20 8 false).
+Proof. split; cbn; lra. Qed.
 
 (* ---- 12. Edge-end snapping, tree style (_edge_factories.snap_tree): for a box that is not a port the end
          becomes the snapped point on the top or bottom line; for a port only while the snap keeps the end's
@@ -183,6 +257,9 @@ Theorem edge_tree_end_on_side_nonport : forall tgt pi pn,
   exists e, edge_snap_tree tgt pi pn = LOk [e] /\ on_tree_side tgt pi e.
 Proof. exact edge_snap_tree_nonport. Qed.
 Print Assumptions edge_tree_end_on_side_nonport.
+Example edge_tree_end_on_side_nonport_hyps_sat :   (* vertical last segment (103, 50) -> (103, 100) into a 10 x 10 box *)
+  bport (mkbox 100 100 10 10 false) = false /\ veqb (vsub (103, 100) (103, 50)) (0, 0) = false.
+Proof. split; reflexivity. Qed.
 
 Theorem edge_tree_end_on_side_partial : forall tgt pi pn,
   veqb (vsub pi pn) (0, 0) = false ->
@@ -190,6 +267,11 @@ Theorem edge_tree_end_on_side_partial : forall tgt pi pn,
             /\ (isclose (fst e) (fst pi) = true -> edge_snap_tree tgt pi pn = LOk [e]).
 Proof. exact edge_snap_tree_partial. Qed.
 Print Assumptions edge_tree_end_on_side_partial.
+Example edge_tree_end_on_side_partial_hyps_sat :   (* a port hit exactly at its middle x: the snap keeps the end's x *)
+  exists e, veqb (vsub (105, 100) (105, 50)) (0, 0) = false
+            /\ vector_snap Tree (mkbox 100 100 10 10 true) (105, 100) (105, 50) = Ok e
+            /\ isclose (fst e) (fst (105, 100)) = true.
+Proof. eexists. split; [reflexivity|]. split; reflexivity. Qed.
 
 Theorem edge_tree_end_refuted : exists tgt pi pn l,
   0 < bw tgt /\ 0 < bh tgt /\ veqb (vsub pi pn) (0, 0) = false /\ edge_snap_tree tgt pi pn = LOk l
